@@ -332,6 +332,12 @@ func (c09) Gen(r *core.Rand, tier string) interface{} {
 				op.Op, op.U = r.PickS("sub_num", "sub_exp"), uint64(r.Pick(0, 1, 255))
 			}
 		}
+		if op.Obj != "sc" && op.Obj != "" && r.Chance(1, 14) {
+			op = C09Op{Obj: op.Obj, Op: "scribble"}
+		}
+		if op.Obj == "sc" && op.Op == "set_descs" && r.Chance(1, 4) {
+			op = C09Op{Obj: "sc", Op: "append_desc", List: []string{descs[r.Intn(len(descs))]}}
+		}
 		s.Ops = append(s.Ops, op)
 	}
 	s.Ops = append(s.Ops, C09Op{Obj: "sc", Op: "encode"})
@@ -627,6 +633,8 @@ func (c09) Exec(script interface{}, c *core.Ctx) {
 	}
 
 	hasForeign := func() bool { return len(foreign) > 0 }
+	var pairA, pairB scte35.SCTE35
+	var pairAL, pairBL []scte35.SegmentationDescriptor
 
 	for i, op := range s.Ops {
 		c.SetStep(i)
@@ -714,6 +722,53 @@ func (c09) Exec(script interface{}, c *core.Ctx) {
 					c.Probe("three_descriptors")
 				}
 				items = names
+			case "append_desc":
+				// the idiom SetDescriptors(append(Descriptors(), d)), on this signal and, interleaved,
+				// on two created signals of their own: each list belongs to its signal
+				if hasForeign() || len(op.List) != 1 || descs[op.List[0]] == nil {
+					continue
+				}
+				dup := false
+				for _, n := range items {
+					if n == op.List[0] {
+						dup = true
+					}
+				}
+				if dup || len(items) >= 3 {
+					continue
+				}
+				okA := c.Call("SCTE35.SetDescriptors(append(Descriptors(), d))", func() {
+					if pairA == nil {
+						pairA, pairB = scte35.CreateSCTE35(), scte35.CreateSCTE35()
+					}
+					da, db := scte35.CreateSegmentationDescriptor(), scte35.CreateSegmentationDescriptor()
+					da.SetEventID(0xA0000000 + uint32(len(pairAL)))
+					db.SetEventID(0xB0000000 + uint32(len(pairBL)))
+					pairA.SetDescriptors(append(pairA.Descriptors(), da))
+					sc.SetDescriptors(append(sc.Descriptors(), descs[op.List[0]].obj))
+					pairB.SetDescriptors(append(pairB.Descriptors(), db))
+					pairAL, pairBL = append(pairAL, da), append(pairBL, db)
+				})
+				if !okA {
+					return
+				}
+				items = append(append([]string(nil), items...), op.List[0])
+				c.Probe("descriptors_replaced")
+				c.Probe("descriptor_appended_to_the_signals_own_list")
+				for _, pr := range []struct {
+					sig  scte35.SCTE35
+					want []scte35.SegmentationDescriptor
+				}{{pairA, pairAL}, {pairB, pairBL}} {
+					got := pr.sig.Descriptors()
+					bad := len(got) != len(pr.want)
+					for k := 0; !bad && k < len(got); k++ {
+						bad = got[k] != pr.want[k]
+					}
+					if bad {
+						c.Fail("signals_independent", "descriptor_list_of_another_created_signal_changed", len(got), len(pr.want))
+						return
+					}
+				}
 			case "encode":
 				if !c09Encode(c, sc, section(), &lastEnc, &haveEnc, descs, items, &heldRaw) {
 					return
@@ -815,6 +870,19 @@ func c09VisibleDesc(d ref.SegDesc) ref.SegDesc {
 }
 
 func c09CmdOp(c *core.Ctx, cm *c09Cmd, op C09Op) bool {
+	if op.Op == "scribble" {
+		// the bytes Data() hands out are the caller's: overwriting them changes no object
+		ok := c.Call("SpliceCommand.Data (overwritten by the caller)", func() {
+			b := cm.obj.Data()
+			for i := range b {
+				b[i] = 0
+			}
+		})
+		if ok {
+			c.Probe("part_encoding_overwritten_by_the_caller")
+		}
+		return ok
+	}
 	ins, isIns := cm.obj.(scte35.SpliceInsertCommand)
 	m := &cm.m
 	flag := func(cur *bool) {
@@ -938,6 +1006,18 @@ func c09CmdOp(c *core.Ctx, cm *c09Cmd, op C09Op) bool {
 }
 
 func c09DescOp(c *core.Ctx, dd *c09Desc, op C09Op) bool {
+	if op.Op == "scribble" {
+		ok := c.Call("SegmentationDescriptor.Data (overwritten by the caller)", func() {
+			b := dd.obj.Data()
+			for i := range b {
+				b[i] = 0
+			}
+		})
+		if ok {
+			c.Probe("part_encoding_overwritten_by_the_caller")
+		}
+		return ok
+	}
 	d := dd.obj
 	m := &dd.m
 	flag := func(cur *bool) {
